@@ -183,6 +183,16 @@ def w_roundtrip(case, opts):
         out["shared_containers"] = len(ids(g2, set()) & ids(g3, set())) + len(ids(g3, set()) & ids(v, set()))
         # script-side view of the value
         out["script_typeof"] = ctx.eval("typeof val")
+        # the same value RETURNED by an exposed callable must arrive as the same JavaScript value as when it is set
+        fresh = E.new_context()
+        fresh.set("val", rx(case["v"]))
+        fresh.set("give", lambda: rx(case["v"]))
+        fresh.set("giveIn", lambda: [rx(case["v"]), {"k": rx(case["v"])}, [[rx(case["v"])]]])
+        out["set_then_eval"] = E.encpy(fresh.eval("val"))
+        out["via_callable"] = E.encpy(fresh.eval("give()"))
+        out["via_callable_nested"] = E.encpy(fresh.eval("giveIn()"))
+        out["set_nested"] = E.encpy(fresh.eval("[val, {k: val}, [[val]]]"))
+        out["via_method_and_callback"] = E.encpy(fresh.eval("[give.call(null), [1].map(function () { return give(); })[0], (function (f) { return f(); })(give)]"))
     except Exception as e:
         out["exc"] = [type(e).__name__, str(e)[:200]]
     out["contract_broken"] = list(_C["broken"])
@@ -353,6 +363,12 @@ def main(ctx):
                 prob = "mutating the value passed to set changed the context"
             elif r["shared_containers"]:
                 prob = "successive results share container objects"
+            elif r.get("via_callable") != r.get("set_then_eval"):
+                prob = "returned by an exposed callable: %s, but set + eval: %s" % (short(r.get("via_callable")), short(r.get("set_then_eval")))
+            elif r.get("via_callable_nested") != r.get("set_nested"):
+                prob = "returned inside a container by an exposed callable: %s, but set + eval: %s" % (short(r.get("via_callable_nested")), short(r.get("set_nested")))
+            elif r.get("via_method_and_callback") != ["l", [r.get("set_then_eval")] * 3]:
+                prob = "returned through call()/callback/indirect call: %s, but set + eval: %s" % (short(r.get("via_method_and_callback")), short(r.get("set_then_eval")))
         if c["v"][0] in ("l", "m"):
             ctx.nontrivial(h(c["v"]))
         if prob:
